@@ -149,3 +149,62 @@ def run(facts, rep, floor=0):
                                   (bname, W, what, expo, facts.ty(y), cap), facts.loc(p, y))
     rep.floor(R, "encode_internal_* functions with an admissibility test", n, floor)
     return n
+
+
+def run_component_modulus(facts, rep, tpath="ckks_encoder::CKKSEncoder"):
+    """R-ENCADMIT(modulus) [N]: inside a loop over the RNS components of the destination, every modular primitive works under the
+    component's OWN prime.  In a `for (j, component) in data.chunks_mut(N).enumerate()` / `for j in 0..L` loop whose body
+    indexes the coefficient-modulus list with j, a modular primitive (negate / reduce / multiply ... taking a `&Modulus`) whose
+    modulus resolves to that list at a LITERAL index uses one fixed prime for all components: the residues written for j >= 1
+    are those of another integer (x + q_0 instead of x), so the components are not the residues of one number."""
+    RM = "R-ENCADMIT(modulus)"
+    rep.rule(RM, "in per-component loops of the encoder, the modulus handed to a modular primitive is indexed by the component "
+             "variable, never by a literal")
+    from facts import pat_bindings, root_local as _rl
+    n = 0
+    for p in sorted(facts.methods_of(tpath)):
+        body = facts.hir.get(p)
+        if body is None:
+            continue
+        defs = Defs(body)
+        k = 0
+        for lp in walk(body):
+            if lp.get("k") != "For":
+                continue
+            lids = {l for l, _ in pat_bindings(lp["pat"])}
+            # does the body index a modulus list with a loop variable?
+            per_comp = [y for y in walk(lp["body"]) if y.get("k") == "Index" and local_of(y["i"]) and local_of(y["i"])[0] in lids and
+                        "Modulus" in facts.ty(y)]
+            if not per_comp:
+                continue
+            lists = {(_rl(y["e"]) or (None,))[0] for y in per_comp}
+            for c in walk(lp["body"]):
+                if c.get("k") not in ("Call", "MCall"):
+                    continue
+                for a in c.get("args", []):
+                    if "Modulus" not in facts.ty(a) or "[" in facts.ty(a) and "Modulus]" in facts.ty(a):
+                        continue
+                    e = strip(a)
+                    for _ in range(3):
+                        lo = local_of(e)
+                        if lo and len(defs.defs.get(lo[0], [])) == 1:
+                            e = strip(defs.defs[lo[0]][0])
+                        else:
+                            break
+                    if e.get("k") != "Index" or (_rl(e["e"]) or (None,))[0] not in lists:
+                        continue
+                    n += 1
+                    rep.fn(p)
+                    key = "%s/component-modulus#%d" % (p, k)
+                    k += 1
+                    idx = strip(e["i"])
+                    if idx.get("k") == "Lit":
+                        rep.violation(RM, key, "inside a loop over the RNS components, %s is given the prime at the fixed index %s "
+                                      "while the component's own prime is the one at the loop index: components other than that one "
+                                      "receive residues of a different integer" %
+                                      ((callee(c) or {}).get("name") or c.get("name"), idx.get("v")), facts.loc(p, c))
+                    elif local_of(idx) and local_of(idx)[0] in lids:
+                        rep.ok(RM, key, "modulus indexed by the component variable", facts.loc(p, c), nontrivial=False)
+                    else:
+                        rep.unresolved(RM, key, "modulus index is neither the component variable nor a literal", facts.loc(p, c))
+    return n
